@@ -16,7 +16,7 @@
 (* The intended behaviour is specified; where the shipped code is known    *)
 (* to differ the shipped variant is selected by a name in Dev.             *)
 (***************************************************************************)
-EXTENDS Val, TLC
+EXTENDS Analysis, TLC
 
 \* --------------------------------------------------------------------------
 \* reading helpers (1-based positions)
@@ -484,6 +484,7 @@ F(s, cs, i) ==
     [] s.fk = "OBV" -> FOBV(s, cs, i)
     [] s.fk = "VWAPdata" -> FVWAPdata(s, cs, i)
     [] s.fk = "VWAP" -> FVWAP(s, cs, i)
+    [] s.fk = "Amorph" -> Eval(cs, [fn |-> s.h.fn, a |-> s.in, b |-> s.h.b, len |-> s.p, i |-> i - 1])
 
 \* --------------------------------------------------------------------------
 \* series descriptors
@@ -595,6 +596,8 @@ SeriesOf(c) ==
             LET h == [data |-> nm \o "_data"]
             IN <<Ser("VWAPdata", h.data, FALSE, -1, k, c.p, Ref(""), Zero, h),
                  Ser("VWAP", nm, TRUE, rv, k, c.p, Ref(""), Zero, h)>>
+       [] k = "Amorph" ->
+            <<Ser("Amorph", nm, TRUE, rv, k, c.p, c.in, Zero, [fn |-> c.fn, b |-> c.in2])>>
        [] OTHER -> <<>>
 
 \* number of earlier candles the indicator can need for one reading (its warm-up length);
@@ -608,6 +611,7 @@ Warm(c) ==
        [] k = "STOCH" -> c.p + c.p2 + c.p3 + 1
        [] k = "TSI" -> c.p + c.p2 + 1
        [] k = "ADX" -> c.p + c.p2 + 1
+       [] k = "Amorph" -> c.p + 12
        [] OTHER -> 2
 
 \* every name the indicator writes (purge must remove exactly these)
